@@ -169,7 +169,39 @@ def handle (req : Json) : Json :=
         | .ok outs => pure [("vp", Json.arr (outs.map (fun (o : OutVar) =>
             Json.arr #[Json.str o.key, otyJ o.ty, match o.val with | none => Json.null | some v => Json.str v])).toArray)]
       | _, _ => pure []
-    return Json.mkObj (base ++ extra ++ vpExtra)) with
+    -- the supplements' own rules on top of the observed standard answer
+    let tyList (j : Json) : Except String (List (Option Ty)) := do
+      (← j.getArr?).toList.mapM parseOptTy
+    let pairsJ (l : List (String × Option Ty)) : Json :=
+      Json.arr (l.map (fun (p : String × Option Ty) => Json.arr #[Json.str p.1, otyJ p.2])).toArray
+    let suppExtra ← match inferJ with
+      | .arr _ => do
+        let ans ← parseInfer inferJ
+        match construct (fun _ => ans) c with
+        | .ok std =>
+          let lp ← match (req.getObjVal? "loop").toOption with
+            | some lj => do
+              let rs ← tyList (← lj.getObjVal? "results")
+              let as ← tyList (← lj.getObjVal? "args")
+              pure [("loop_own", pairsJ (loopOwn rs as std))]
+            | none => pure []
+          let cp ← match (req.getObjVal? "compress").toOption with
+            | some cj => do
+              let axis : Option Int := match (cj.getObjVal? "axis").toOption with
+                | some aj => aj.getInt?.toOption
+                | none => none
+              let tys := c.inPairs.map (fun (p : String × Nat) => (c.info p.2).ty)
+              match tys with
+              | [some inp, some cond] =>
+                pure [("compress_own", match compressOwn inp cond axis with
+                  | .ok t => tyJ t
+                  | .error _ => Json.str "inference")]
+              | _ => pure []
+            | none => pure []
+          pure (lp ++ cp)
+        | .error _ => pure []
+      | _ => pure []
+    return Json.mkObj (base ++ extra ++ vpExtra ++ suppExtra)) with
   | .ok j => j
   | .error e => Json.mkObj [("error", e)]
 
